@@ -6,6 +6,20 @@ PROPS = ['C%02d' % i for i in range(1, 21)]
 BASELINE = "cd /repo && /venv/bin/python -m pytest -ra -q -p no:cacheprovider --timeout=900 --continue-on-collection-errors"
 
 CLAIMED = {
+ 'C12': dict(
+    category='proof',
+    text="Rocq theorems over Forms.typed_value / line_value (the model of TypedField.value and FloatField.value): C12_typed_value_typed "
+         "(any stored value has exactly the declared type - bool is not int, int is not float - and a money value is a rounding to the "
+         "declared places), C12_none_or_blank_is_empty, C12_wrong_type_is_rejected (TypeError, never stored or coerced), "
+         "C12_line_value_typed (in the catalogue model a line's value exists only through typed_value). For every pv a body may return. "
+         "Tie: the real field classes on generated return values (bools, ints, floats incl. ties and -0.0, blank strings, None, members "
+         "of the wrong enumeration, subclasses of int/float/str, containers) against the model; InputForm mirroring checked for every "
+         "input of every input-only form of every year; every stored value of real-form scenarios checked for type and rounding.",
+    design_ref='DESIGN.md §4 C12',
+    note="round(): the model is half-even on the exact decimal; CPython rounds the binary value - exact decimal ties are counted and accepted "
+         "within one unit (stated). Print Assumptions: closed under the global context.",
+    technique='Rocq proofs over the field-typing model + differential correspondence with the real field classes',
+ ),
  'C11': dict(
     category='proof',
     text="Rocq theorems over coq/Inputs.v (a model of all seven input classes and of InputStore.__getitem__, including Python's int() and "
